@@ -35,9 +35,12 @@ IDX_JOBS = [(acc, el, st, ix) for acc in ('read', 'write', 'aug') for el in ('in
             if not (acc != 'read' and (st == 'const' or el == 'string' and st in ('argv',)))
             and not (acc == 'aug' and el in ('bool', 'string'))
             and not (el in ('bool',) and st == 'argv')]
-LEN_JOBS = [(el, n, where) for el in ('int', 'byte', 'bool', 'string')
-            for n in ('-1', '-7', '-8', '0', '1', 'maxlen', 'maxlen+1', 'min')
-            for where in ('local', 'callee', 'loop')]
+# every length at every word size: 'wrapJ' is the smallest n with n * word_size >= J * 2^(8 * word_size), i.e. a
+# positive length whose byte size wraps around to a small number (only where such an n is representable)
+LEN_JOBS = [(el, n, where, W) for el in ('int', 'byte', 'bool', 'string')
+            for n in ('-1', '-7', '-8', '0', '1', 'maxlen', 'maxlen+1', 'min', 'max', 'wrap1', 'wrap2', 'wrap3', 'wrap1+1')
+            for where in ('local', 'callee', 'loop') for W in (2, 3, 4, 8)
+            if not (n.startswith('wrap') and where != 'local' and W == 2)]
 NLP_JOBS = [(shape, follow, kind) for shape in ('direct', 'in_for', 'in_while', 'in_if', 'in_else', 'in_elif',
                                                  'in_block', 'in_for_if', 'in_while_else', 'after_return',
                                                  'unreachable', 'none')
@@ -171,8 +174,12 @@ def idx_prog(acc, el, st, ix, W, L):
 def len_value(n, el, W):
     maxs = (1 << (8 * W - 1)) - 1
     maxlen = maxs if el in ('byte', 'bool') else maxs // W
+    if n.startswith('wrap'):
+        j = int(n[4])
+        v = -((-j << (8 * W)) // W) + (1 if n.endswith('+1') else 0)
+        return v if v <= maxs else maxs - j
     return {'-1': -1, '-7': -7, '-8': -8, '0': 0, '1': 1, 'maxlen': maxlen, 'maxlen+1': maxlen + 1,
-            'min': -maxs - 1}[n]
+            'min': -maxs - 1, 'max': maxs}[n]
 
 
 def len_prog(el, n, where, W):
@@ -237,10 +244,10 @@ def fixed_job(idx):
         return f'index {acc} {el} {st} idx={ix} len={L}', p, argv, W, (None if 0 <= v < L else 'out_of_bounds')
     idx -= len(IDX_JOBS)
     if idx < len(LEN_JOBS):
-        el, n, where = LEN_JOBS[idx]
+        el, n, where, W = LEN_JOBS[idx]
         p, argv = len_prog(el, n, where, W)
         v = len_value(n, el, W)
-        return f'length {el} n={n} {where}', p, argv, W, (None if v in (0, 1) else 'stack_overflow')
+        return f'length {el} n={n} {where} W={W}', p, argv, W, (None if v in (0, 1) else 'stack_overflow')
     idx -= len(LEN_JOBS)
     shape, follow, kind = NLP_JOBS[idx]
     p, argv = nlp_prog(shape, follow, kind)
